@@ -125,7 +125,8 @@ def parent_of(kind, o):
 
 
 QUALS = [None, {"note": ["b", "a"], "count": [3, 1], "flag": [True]}, {"k1": ["x"], "K2": ["y", "z", "x"]},
-         {"pseudo": [], "note": ["a"]}, {"x": [1.5, "1.5"], "": ["empty key"], "unicode \u00e9": ["\u00fc", "a b"]}]
+         {"pseudo": [], "note": ["a"]}, {"x": [1.5, "1.5"], "": ["empty key"], "unicode \u00e9": ["\u00fc", "a b"]},
+         {"gene": ["Adh1", "ADH1", "adh1", "aDH1"], "Note": ["x"], "note": ["X", "x"]}]
 
 
 def zoo(rnd):
